@@ -46,6 +46,15 @@ Same(r, e) ==
                                     [] OTHER -> FALSE
        [] OTHER -> FALSE
 
+\* ---- the name of a variant (C03) ----------------------------------------
+\* "the string given by its rename attribute if present, otherwise its identifier".  An identifier
+\* written in raw form (r#type) IS the identifier `type`: `r#` is lexical escaping, not part of the
+\* name (std's derive(Debug) prints "type").  ident: code points as written; rename: None-like
+\* [k |-> "none"] or [k |-> "some", s |-> code points].
+RawPrefix   == <<114, 35>>                              \* r#
+Unraw(id)   == IF Len(id) > 2 /\ SubSeq(id, 1, 2) = RawPrefix THEN SubSeq(id, 3, Len(id)) ELSE id
+NameOf(ident, rename) == IF rename.k = "some" THEN rename.s ELSE Unraw(ident)
+
 \* ---- the abstract enum --------------------------------------------------
 Discs(D)   == DOMAIN D
 Sorted(D)  == SetToSortSeq(DOMAIN D, <)              \* all variants, ascending by discriminant
